@@ -885,9 +885,47 @@ theorem writePath_layers2_any (ds : List Str) (hds : ∀ c ∈ ds, GoodComp c) :
   · subst hne; rfl
   · exact writePath_layers2 ds hne hds
 
-/-- `ensure_has_parent` as a function of the maps; `ds` are the components of the parent -/
+/-- the type test of `ensure_has_parent` (`read_path(parent)?.is_dir()?`) on a canonical path:
+the entry of the union view (the root: of the upper layer) is a directory -/
+def pIsDir (mu ml : FMap) (p : Str) : Bool :=
+  match (if p = [] then mu.find? [] else view mu ml p) with
+  | some e => decide (e.ftype = .dir)
+  | none => false
+
+/-- `read_path(p)?.is_dir()?` on a canonical path that exists: the world is unchanged, the
+answer is `pIsDir` -/
+theorem run_readPath_isDir (ds : List Str) (hds : ∀ c ∈ ds, GoodComp c)
+    (hex : pexists mu ml (renderC ds) = true) :
+    (do let rp ← readPath (layers2 u l idu idl) (renderC ds)
+        rp.isDir : M Bool) w = (.ok (pIsDir mu ml (renderC ds)), w) := by
+  unfold pIsDir
+  by_cases hne : ds = []
+  · subst hne
+    simp only [renderC_nil, ↓reduceIte, bind, M.bind, readPath, Pure.pure, M.pure,
+      writeLayer_layers2, run_visDir h.hu]
+  · unfold pexists at hex
+    rw [if_neg (renderC_ne_nil hne)] at hex ⊢
+    simp only [bind, M.bind, run_readPath h ds hne hds]
+    unfold view at hex ⊢
+    by_cases hm : mu.contains (marker (renderC ds)) = true
+    · rw [if_pos hm] at hex; cases hex
+    · rw [if_neg hm] at hex ⊢
+      rcases Option.eq_none_or_eq_some (mu.find? (renderC ds)) with hc | ⟨e, hc⟩
+      · rcases Option.eq_none_or_eq_some (ml.find? (renderC ds)) with hc' | ⟨e', hc'⟩
+        · rw [hc, hc'] at hex; cases hex
+        · simp only [hm, Bool.false_eq_true, if_false, contains_of_none hc, contains_of_find hc',
+            if_true, run_visDir h.hl, hc', hc, Option.or]
+      · simp only [hm, Bool.false_eq_true, if_false, contains_of_find hc, if_true,
+          run_visDir h.hu, hc, Option.or]
+
+/-- `ensure_has_parent` as a function of the maps; `ds` are the components of the parent.
+The parent has to exist in the union view AND be a directory there; otherwise the call fails
+and the upper map is unchanged (a parent that is a FILE used to get shadowed by directories
+created in the upper layer). -/
 def pEnsure (mu ml : FMap) (ds : List Str) : Res Unit × FMap :=
-  if pexists mu ml (renderC ds) then Mem.mkdirs mu (chain [] ds) else (.err .other none, mu)
+  if pexists mu ml (renderC ds) then
+    if pIsDir mu ml (renderC ds) then Mem.mkdirs mu (chain [] ds) else (.err .other none, mu)
+  else (.err .other none, mu)
 
 theorem run_ensureHasParent (cs : List Str) (hne : cs ≠ []) (hcs : ∀ c ∈ cs, GoodComp c) :
     ensureHasParent (layers2 u l idu idl) (renderC cs) w =
@@ -897,7 +935,26 @@ theorem run_ensureHasParent (cs : List Str) (hne : cs ≠ []) (hcs : ∀ c ∈ c
   rw [if_pos (slash_mem_renderC hne), parentInternal_renderC cs (good_noSlash hcs),
     writePath_layers2_any _ hds]
   by_cases hex : pexists mu ml (renderC cs.dropLast) = true
-  · simp [hex, bind, M.bind, M.ret, run_oexists_any h _ hds, run_createDirAll h.hu idu _ hds]
+  · have hrd := run_readPath_isDir (idu := idu) (idl := idl) h cs.dropLast hds hex
+    simp only [bind, M.bind] at hrd
+    by_cases hd : pIsDir mu ml (renderC cs.dropLast) = true
+    · rw [hd] at hrd
+      simp only [bind, M.bind, run_oexists_any h _ hds, hex, if_true] at hrd ⊢
+      split at hrd
+      · rename_i rp w1 hrp
+        rw [hrd]
+        simp [hd, M.ret, M.bind, run_createDirAll h.hu idu _ hds]
+      · cases hrd
+      · cases hrd
+    · have hd' : pIsDir mu ml (renderC cs.dropLast) = false := by simpa using hd
+      rw [hd'] at hrd
+      simp only [bind, M.bind, run_oexists_any h _ hds, hex, if_true] at hrd ⊢
+      split at hrd
+      · rename_i rp w1 hrp
+        rw [hrd]
+        simp [hd', M.failK, fail, h.hu.same]
+      · cases hrd
+      · cases hrd
   · simp [hex, bind, M.bind, M.ret, run_oexists_any h _ hds, M.failK, fail, h.hu.same]
 
 /-- the removal of the marker by `create_dir` / `create_file` -/
@@ -1587,6 +1644,24 @@ theorem pexists_of_anc {mu ml : FMap} {ds : List Str} (hroot : RootOk mu)
     rw [List.take_length] at he
     rw [he]; rfl
 
+/-- when the proper ancestors are directories of the view, so is the parent itself: the type
+test of `ensure_has_parent` succeeds -/
+theorem pIsDir_of_anc {mu ml : FMap} {ds : List Str} (hroot : RootOk mu)
+    (hanc : AncDirs mu ml ds) : pIsDir mu ml (renderC ds) = true := by
+  unfold pIsDir
+  by_cases hne : ds = []
+  · subst hne
+    obtain ⟨e, he, hd⟩ := hroot.root
+    simp [he, hd]
+  · rw [if_neg (renderC_ne_nil hne)]
+    have hl : 1 ≤ ds.length := by
+      cases ds with
+      | nil => exact absurd rfl hne
+      | cons d ds => simp
+    obtain ⟨e, he, hd⟩ := hanc ds.length hl (Nat.le_refl _)
+    rw [List.take_length] at he
+    simp [he, hd]
+
 theorem chain_dirs_of_anc {mu ml : FMap} {ds : List Str} (hanc : AncDirs mu ml ds) :
     ∀ k ∈ chain [] ds, ∀ e, mu.find? k = some e → e.ftype = .dir := by
   intro k hk e he
@@ -1602,9 +1677,31 @@ theorem pEnsure_ok {mu ml : FMap} {ds : List Str} (hroot : RootOk mu)
     (hds : ∀ c ∈ ds, GoodComp c) (hanc : AncDirs mu ml ds) :
     pEnsure mu ml ds = (.ok (), fillDirs mu (chain [] ds)) := by
   unfold pEnsure
-  rw [if_pos (pexists_of_anc hroot hanc)]
+  rw [if_pos (pexists_of_anc hroot hanc), if_pos (pIsDir_of_anc hroot hanc)]
   exact mkdirs_chain mu [] ds (by simp) (good_noSlash hds) hroot.root
     (chain_dirs_of_anc hanc)
+
+/-- the parent is a FILE of the union view (in whichever layer): `ensure_has_parent` fails with
+`Other` and the upper map is unchanged — the pure counterpart of the fix -/
+theorem pEnsure_file {mu ml : FMap} {ds : List Str} (hne : ds ≠ []) {e : Entry}
+    (hv : view mu ml (renderC ds) = some e) (hf : e.ftype = .file) :
+    pEnsure mu ml ds = (.err .other none, mu) := by
+  unfold pEnsure pexists pIsDir
+  simp [renderC_ne_nil hne, hv, hf]
+
+/-- in a well-formed upper map nothing sits below a path that the view shows as a file -/
+theorem upper_child_absent_of_view_file {mu ml : FMap} {ds : List Str} {n : Str} (hwf : WF mu)
+    (hds : ∀ c ∈ ds, GoodComp c) (hn : GoodComp n) {e : Entry}
+    (hv : view mu ml (renderC ds) = some e) (hf : e.ftype = .file) :
+    mu.find? (renderC (ds ++ [n])) = none := by
+  rcases Option.eq_none_or_eq_some (mu.find? (renderC (ds ++ [n]))) with hc | ⟨ce, hc⟩
+  · exact hc
+  · exfalso
+    obtain ⟨_, pe, hp, hpd⟩ := hwf.2 _ ce hc (renderC_ne_nil (by simp))
+    rw [parent_snoc ds n hds hn] at hp
+    obtain ⟨_, hu | ⟨hu, _⟩⟩ := view_some_cases hv
+    · rw [hp] at hu; injection hu with hu; subst hu; rw [hf] at hpd; cases hpd
+    · rw [hp] at hu; cases hu
 
 theorem marker_not_in_chain {ds : List Str} (hds : ∀ c ∈ ds, GoodComp c)
     (hhead : ds.head? ≠ some woDir) (q : Str) (hq : q.head? = some '/') :
@@ -1828,7 +1925,9 @@ theorem pEnsure_keeps {mu ml : FMap} {k : Str} (ds : List Str) (h : mu.contains 
     (pEnsure mu ml ds).2.contains k = true := by
   unfold pEnsure
   split
-  · exact mkdirs_keeps _ h
+  · split
+    · exact mkdirs_keeps _ h
+    · exact h
   · exact h
 
 theorem pClear_keeps {mu : FMap} {k : Str} (q : Str) (hne : k ≠ marker q)
